@@ -214,10 +214,11 @@ fn definite_comparison(
             (Some(a), Some(b)) => (*a as f64, *b as f64),
             _ => return false,
         },
-        ParquetStatistics::Double(s) => match (s.min_opt(), s.max_opt()) {
-            (Some(a), Some(b)) => (*a, *b),
-            _ => return false,
-        },
+        // Parquet min/max skip NaN and the footer carries no NaN count, so
+        // float bounds cannot prove a comparison for EVERY row: a NaN row
+        // fails `f <= 2.0` yet is invisible here. Never drop the row filter
+        // on a floating-point column.
+        ParquetStatistics::Double(_) | ParquetStatistics::Float(_) => return false,
         _ => return false,
     };
     let val: f64 = match literal {
